@@ -903,7 +903,7 @@ def judge(prog, mod, mros, q, names=None):
             if strict:
                 devs.append({"kind": "accepted-not-offered", "name": n, "finding": classify_missing(n),
                              "detail": "the interpreter accepts %s= (and rejects an unknown name) but it is not offered" % n})
-    # hard-coded keyword of the only forwarding call of the asked callable itself
+    # a keyword hard-coded by every forwarding call of the asked callable itself
     top = None
     if q[0] == "cmeth":
         top = prog["entries"][q[1]]["cmeths"][q[2]]
@@ -913,9 +913,11 @@ def judge(prog, mod, mros, q, names=None):
         top = prog["entries"][q[1]]["init"]
     if top is not None:
         fw = [u for u in live_uses(top) if is_forward(u)]
-        if len(fw) == 1:
-            for n in fwd_given(fw[0]):
-                if n not in own_named(top) and n in offered:
+        read = {u[k][0] for u in live_uses(top) for k in ("pop", "get") if k in u}
+        if fw:
+            for n in set.intersection(*[set(fwd_given(u)) for u in fw]):
+                # (theorem C13_hardcoded_not_offered: hard-coded by every forwarding call, not read by a pop/get, not an own parameter)
+                if n not in own_named(top) and n not in read and n in offered:
                     devs.append({"kind": "hard-coded-offered", "name": n, "finding": FIND_CRASH if crashed else None,
                                  "detail": "%s is hard-coded in the forwarding call and still offered" % n})
     # all offered together
@@ -1187,7 +1189,7 @@ def exhaustive_family(thorough):
 
 class _Tally:
     def __init__(self):
-        self.n_dis = self.n_queries = self.n_crash = self.n_uninst = self.n_parser = self.n_wf_queries = self.n_wf_progs = self.n_progs = 0
+        self.n_dis = self.n_queries = self.n_crash = self.n_uninst = self.n_parser = self.n_wf_queries = self.n_wf_progs = self.n_progs = self.n_syntactic = 0
 
 
 def process(ctx, progs, T, parser_every, is_corpus=False):
@@ -1245,11 +1247,18 @@ def process(ctx, progs, T, parser_every, is_corpus=False):
                         ctx.tie_break("correspondence E9 (Resolver model vs jsonargparse._parameter_resolvers / the interpreter) disagrees: " + dis[0]["what"],
                                       json.dumps({"q": q, "first": dis[0], "source": render(small)}, default=repr)[:1900])
                         ctx.violation("model and code disagree (%s): %s" % (dis[0]["side"], dis[0]["what"]),
-                                      {"kind": "corr", "prog": small, "q": q, "source": render(small)})
+                                      {"kind": "corr", "prog": small, "q": q, "source": render(small)}, found_input=False)
             # ---- property oracle
             in_theorem = results is not None and results[idx]["wf"] and results[idx]["results"][qi]["out"] == "ok"
             if in_theorem:
                 T.n_wf_queries += 1
+            if in_theorem and results[idx]["noclash"]:
+                T.n_syntactic += 1
+                # C13_no_crash / C13_keeps_sig_strict say: no fallback, no Conditional parameter, no repeated name
+                if stats["crashed"] or any((p["dflt"] or "").startswith("cond:") for p in real) or len({p["name"] for p in real}) != len(real):
+                    ctx.violation("a program inside WfProg and noPopClash: the real resolver fell back or produced a Conditional/duplicate parameter",
+                                  {"kind": "oracle", "origin": origin, "prog": prog, "q": q, "source": render(prog), "inside_theorem_hypotheses": True,
+                                   "deviation": {"kind": "strict-signature", "real": real}})
             for d in devs:
                 if d["finding"] and ctx.is_open(d["finding"]) and not in_theorem:
                     ctx.known(d["finding"], "%s: %s (e.g. %s of a %s program)" % (d["kind"], d["detail"], "/".join(map(str, q)), origin))
@@ -1325,9 +1334,11 @@ def run(ctx: Ctx):
     ctx.extra["exhaustive_two_class_family"] = len(fam)
     for i in range(0, len(fam), 400):
         process(ctx, [(p, "exhaustive-family") for p in fam[i:i + 400]], T, 7)
-    n_random = ctx.budget(700, 9000) * (2 if ctx.search_boost > 1 else 1)
     done = 0
-    while done < n_random:
+    while True:
+        n_random = ctx.budget(700, 9000) * (2 if ctx.search_boost > 1 else 1)  # a broken tie widens the search
+        if done >= n_random:
+            break
         batch = []
         for k in range(done, min(done + 400, n_random)):
             knobs = None
@@ -1353,6 +1364,7 @@ def run(ctx: Ctx):
     ctx.extra["programs_satisfying_WfProg"] = T.n_wf_progs
     ctx.extra["queries"] = T.n_queries
     ctx.extra["queries_inside_C13_exact_hypotheses"] = T.n_wf_queries
+    ctx.extra["queries_inside_WfProg_and_noPopClash"] = T.n_syntactic
     ctx.extra["queries_where_ast_resolver_fell_back"] = T.n_crash
     ctx.extra["queries_not_instantiable"] = T.n_uninst
     ctx.extra["parser_surface_checked"] = T.n_parser
@@ -1388,6 +1400,9 @@ def replay(ctx: Ctx, body):
         return 1 if err else 0
     devs, _, _ = judge(prog, mod, mros, q, names)
     print("deviations:", devs)
+    if (r.get("deviation") or {}).get("kind") == "strict-signature":
+        bad = crashed or any((p["dflt"] or "").startswith("cond:") for p in real) or len({p["name"] for p in real}) != len(real)
+        return 1 if bad else 0
     if r.get("inside_theorem_hypotheses"):
         return 1 if devs else 0
     return 1 if any(not (d["finding"] and ctx.is_open(d["finding"])) for d in devs) else 0
